@@ -107,11 +107,11 @@ class C06(Spec):
         import runner
         base = netgen.pick_port_base(rng)
         cases = []
-        for _ in range(60 if tier == "quick" else 3000):
+        for _ in range(100 if tier == "quick" else 3000):
             r = rng.random()
-            if r < 0.4:
+            if r < 0.3:
                 cases.append(c09.case_of(c09.SPEC.post_world(rng, base)))
-            elif r < 0.7:
+            elif r < 0.5:
                 cases.append(c09.case_of(c09.SPEC.actor_world(rng, base)))
             else:
                 cases.append(c10.SPEC.remote_world(rng, base).case())
